@@ -101,7 +101,8 @@ func runC04(r *Report) {
 		for _, c := range Calls(f, false, "Bridge.SetTargetConnection", "Bridge.SetSourceConnection", "SessionManager.startSourceBridge", "SessionManager.forwardToSourceNode") {
 			prim++
 			top := Outermost(f).Name()
-			r.Ob("R-C04-1", CallPos(c), allowedCallers[top], "attach primitive "+CalleeOf(c).Name+" is called from "+top+" (allowed callers are the branches of the authorised dispatcher)", r.P.FuncName(f), "who-may-attach:"+CalleeOf(c).Name)
+			okCaller := allowedCallers[top] || onlyCalledFromAllowed(r.P, Outermost(f), allowedCallers, 3)
+			r.Ob("R-C04-1", CallPos(c), okCaller, "attach primitive "+CalleeOf(c).Name+" is called from "+top+" (allowed callers are the branches of the authorised dispatcher and unexported helpers only they call)", r.P.FuncName(f), "who-may-attach:"+CalleeOf(c).Name)
 		}
 	}
 	if prim < 5 {
@@ -116,7 +117,7 @@ func runC04(r *Report) {
 		for _, g := range r.P.Funcs {
 			for _, c := range Calls(g, false, name) {
 				top := Outermost(g).Name()
-				ok := top == "handleTunnelOpen" || allowedCallers[top]
+				ok := top == "handleTunnelOpen" || allowedCallers[top] || onlyCalledFromAllowed(r.P, Outermost(g), allowedCallers, 3)
 				r.Ob("R-C04-1", CallPos(c), ok, name+" is entered from "+top, r.P.FuncName(g), "branch-entered-from:"+name)
 			}
 		}
@@ -165,7 +166,7 @@ func runC04(r *Report) {
 				continue
 			}
 			hits := WalkFrom(b, nil, func(in ssa.Instruction) int {
-				if isAck(false)(in) {
+				if performsVia(in, isAck(false), nil) {
 					return Stop
 				}
 				if _, ok := in.(*ssa.Return); ok {
@@ -209,7 +210,7 @@ func runC04(r *Report) {
 				continue
 			}
 			hits := WalkFrom(b, nil, func(in ssa.Instruction) int {
-				if isAck(false)(in) {
+				if performsVia(in, isAck(false), nil) {
 					return Stop
 				}
 				if _, ok := in.(*ssa.Return); ok {
@@ -283,15 +284,26 @@ func runC04(r *Report) {
 			r.Ob("R-C04-2", ret.Pos(), id, "the validator returns success only for an authenticated identity (GetClientID() != 0)", "HandleTunnelOpen", "identity")
 		}
 		// mapping-id branch: ValidateMapping(req.MappingID, conn.GetClientID()) succeeded
-		vm := Calls(h, false, "ValidateMapping")
-		sk := Calls(h, false, "ServerTunnelHandler.validateWithSecretKey")
+		// the two credential branches may live in HandleTunnelOpen or in helpers it calls (depth 2)
+		var vm, sk []ssa.CallInstruction
+		for _, g := range samePkgReach(h, 2) {
+			if g.Parent() != nil {
+				continue
+			}
+			for _, c := range Calls(g, false, "ValidateMapping") {
+				// the mapping-id branch validates the id named in the request; the resume branch
+				// (resumeTunnel) validates the id stored in the token and is checked separately
+				if g == h || strings.Contains(originSummary(Arg(c, 0)), "TunnelOpenRequest.MappingID") {
+					vm = append(vm, c)
+				}
+			}
+			if g == h {
+				sk = append(sk, Calls(g, false, "ServerTunnelHandler.validateWithSecretKey")...)
+			}
+		}
 		r.Ob("R-C04-2", h.Pos(), len(vm) == 1 && len(sk) == 1, "the validator has the mapping-id branch and the secret branch", "HandleTunnelOpen", "branches")
-		for _, c := range vm {
-			o0, o1 := originSummary(Arg(c, 0)), originSummary(Arg(c, 1))
-			r.Ob("R-C04-2", CallPos(c), strings.Contains(o0, "TunnelOpenRequest.MappingID") && strings.Contains(o1, "GetClientID"), "mapping-id branch validates (req.MappingID, this connection's client id)", "HandleTunnelOpen", "mapping-branch-args")
-			// failure leaves
-			bad := false
-			for _, b := range h.Blocks {
+		failureRefuses := func(fn *ssa.Function, c ssa.CallInstruction) bool {
+			for _, b := range fn.Blocks {
 				if ErrFailed(b, c) {
 					hits := WalkFrom(b, nil, func(in ssa.Instruction) int {
 						if ret, ok := in.(*ssa.Return); ok {
@@ -303,11 +315,40 @@ func runC04(r *Report) {
 						return Cont
 					}, nil)
 					if len(hits) > 0 {
-						bad = true
+						return false
 					}
 				}
 			}
-			r.Ob("R-C04-2", CallPos(c), !bad, "a failed mapping validation cannot end in success", "HandleTunnelOpen", "mapping-branch-failure-refuses")
+			return true
+		}
+		for _, c := range vm {
+			g := c.Parent()
+			o0, o1 := originSummary(Arg(c, 0)), originSummary(Arg(c, 1))
+			r.Ob("R-C04-2", CallPos(c), strings.Contains(o0, "TunnelOpenRequest.MappingID") && strings.Contains(o1, "GetClientID"), "mapping-id branch validates (req.MappingID, this connection's client id)", "HandleTunnelOpen", "mapping-branch-args")
+			ok := failureRefuses(g, c)
+			if g != h {
+				// the helper is given this connection and this request, and its failure refuses too
+				n := 0
+				Instrs(h, func(in ssa.Instruction) {
+					hc, isC := in.(ssa.CallInstruction)
+					if !isC || hc.Common().StaticCallee() != g {
+						return
+					}
+					n++
+					if !failureRefuses(h, hc) {
+						ok = false
+					}
+					for _, a := range hc.Common().Args[1:] {
+						if o := originSummary(a); !(o == "param:conn" || o == "param:req") {
+							ok = false
+						}
+					}
+				})
+				if n == 0 {
+					ok = false
+				}
+			}
+			r.Ob("R-C04-2", CallPos(c), ok, "a failed mapping validation cannot end in success", "HandleTunnelOpen", "mapping-branch-failure-refuses")
 		}
 		for _, c := range sk {
 			valid, party := false, false
@@ -414,36 +455,41 @@ func runC04(r *Report) {
 
 	// ---- R-C04-4 model predicates -----------------------------------------------------------------
 	const modPkg = "internal/cloud/models"
+	// what holds whenever a bool predicate answers true: the facts common to all its possibly-true
+	// returns, including the conjuncts of a returned `a && b && c` (any layout of ifs / one expression)
 	if iv := r.need("R-C04-4", modPkg, "PortMapping.IsValid"); iv != nil {
-		for _, ret := range Returns(iv) {
-			if b, ok := ConstBool(RetVal(ret, 0)); !ok || !b {
-				continue
+		rev, exp, act := false, false, false
+		for _, ft := range summariseHelper(iv).isTrue {
+			if _, f, _, ok := FieldOf(ft.Cond); ok && f == "IsRevoked" && !ft.Pol {
+				rev = true
 			}
-			rev, exp, act := false, false, false
-			for _, ft := range Facts(ret.Block()) {
-				if _, f, _, ok := FieldOf(ft.Cond); ok && f == "IsRevoked" && !ft.Pol {
-					rev = true
-				}
-				if c, ok := stripValue(ft.Cond).(*ssa.Call); ok && CalleeOf(c).Is("PortMapping.IsExpired") && !ft.Pol {
-					exp = true
-				}
-				if bo, ok := ft.Cond.(*ssa.BinOp); ok && bo.Op == token.NEQ && !ft.Pol && strings.Contains(originSummary(bo.X), "PortMapping.Status") {
-					act = true
+			if c, ok := stripValue(ft.Cond).(*ssa.Call); ok && CalleeOf(c).Is("PortMapping.IsExpired") && !ft.Pol {
+				exp = true
+			}
+			if bo, ok := ft.Cond.(*ssa.BinOp); ok && strings.Contains(originSummary(bo.X), "PortMapping.Status") {
+				if (bo.Op == token.NEQ && !ft.Pol) || (bo.Op == token.EQL && ft.Pol) {
+					if k, isK := stripValue(bo.Y).(*ssa.Const); isK && k.Value != nil && strings.Contains(k.Value.String(), "active") {
+						act = true
+					}
 				}
 			}
-			r.Ob("R-C04-4", ret.Pos(), rev && exp && act, fmt.Sprintf("IsValid returns true only if not revoked (%v), not expired (%v) and status active (%v)", rev, exp, act), "PortMapping.IsValid", "predicate")
 		}
+		r.Ob("R-C04-4", iv.Pos(), rev && exp && act, fmt.Sprintf("IsValid returns true only if not revoked (%v), not expired (%v) and status active (%v)", rev, exp, act), "PortMapping.IsValid", "predicate")
 	}
 	if ca := r.need("R-C04-4", modPkg, "PortMapping.CanBeAccessedBy"); ca != nil {
-		for _, ret := range Returns(ca) {
-			v := RetVal(ret, 0)
-			if b, ok := ConstBool(v); ok && !b {
-				continue
+		valid, cmp := false, false
+		for _, ft := range summariseHelper(ca).isTrue {
+			if c, ok := stripValue(ft.Cond).(*ssa.Call); ok && CalleeOf(c).Is("PortMapping.IsValid") && ft.Pol {
+				valid = true
 			}
-			_, pol, found := CallFact(ret.Block(), "PortMapping.IsValid")
-			cmp := strings.Contains(originSummary(v), "binop") || isListenCompare(v)
-			r.Ob("R-C04-4", ret.Pos(), found && pol && cmp, "CanBeAccessedBy can be true only under IsValid() and the listen-client comparison", "PortMapping.CanBeAccessedBy", "predicate")
+			if bo, ok := ft.Cond.(*ssa.BinOp); ok && ((bo.Op == token.EQL && ft.Pol) || (bo.Op == token.NEQ && !ft.Pol)) {
+				o := originSummary(bo.X) + "|" + originSummary(bo.Y)
+				if strings.Contains(o, "PortMapping.ListenClientID") && strings.Contains(o, "param:clientID") {
+					cmp = true
+				}
+			}
 		}
+		r.Ob("R-C04-4", ca.Pos(), valid && cmp, fmt.Sprintf("CanBeAccessedBy can be true only under IsValid() (%v) and the listen-client comparison (%v)", valid, cmp), "PortMapping.CanBeAccessedBy", "predicate")
 	}
 	if ie := r.need("R-C04-4", modPkg, "PortMapping.IsExpired"); ie != nil {
 		ok := len(Calls(ie, false, "time:Time.After")) == 1
